@@ -23,12 +23,12 @@ from vlib import common as C
 from vlib import conc
 from vlib import x_fibersched
 
-PROGS = ['cas', 'pool', 'strand', 'timed', 'coro', 'all']
-PROGS2 = ['mixA', 'mixB', 'mixC']
+PROGS = ['cas', 'pool', 'strand', 'timed', 'coro', 'sleep', 'all']
+PROGS2 = ['mixA', 'mixB', 'mixC', 'mixD']
 FREQ = [1, 2, 3, 5, 16, 16, 64]
 PICK = [1, 2, 3, 10, 10, 50]
 AFAIL = [0, 2, 3, 13, 13, 40]
-SLEEP = [2, 7, 100, 100]
+SLEEP = [1, 2, 7, 100, 100]
 TICK = [1, 10, 10, 37]
 DIGEST_FIELDS = ['hash', 'lines', 'resumes', 'atomics', 'syncs', 'injected', 'rand', 'spurious', 'casfail', 'events',
                  'nevents', 'result']
@@ -130,7 +130,8 @@ inline int Lookup(int k) { auto it = gMap.find(k); return it == gMap.end() ? 0 :
 def harness_binary():
     """the harness, copied out of the library cache (which a concurrent check may replace)"""
     h = C.build_harness('c17', 'fiber', ['c17.cpp'])
-    dst = os.path.join(workdir(), 'c17-' + os.path.basename(h).split('-')[-1])
+    # keyed by the library tree (the directory build_harness put it in) and by the harness source
+    dst = os.path.join(workdir(), 'c17-%s-%s' % (os.path.basename(os.path.dirname(h))[:16], os.path.basename(h).split('-')[-1]))
     if not os.path.exists(dst):
         shutil.copyfile(h, dst + '.tmp')
         os.chmod(dst + '.tmp', 0o755)
@@ -293,15 +294,32 @@ def gen_configs(rng, tier):
 
 
 def gen_restore(rng, tier):
+    """checkpoint/restore configurations: random ones, plus
+    * draws with max = 1 (yield frequency 1: every Injector::Reset draws GetRandNumber(1); sleep time 1: every timed wait
+      does; pick width 1): the count must still equal the number of engine outputs consumed;
+    * for the small frequencies 2, 4, 16 the checkpoint is walked through the whole injector period with 0..frequency extra
+      injection points, so that every injector state 0..frequency is restored — `frequency` itself is the state "the next
+      injection point is a forced yield"."""
     lines = []
     n = 0
-    for _ in range(40 if tier == 'quick' else 400):
-        prog = rng.choice(PROGS2)
-        line = 'rec r%d prog=%s size=%d seed=%d freq=%d pick=%d afail=%d sleep=%d tick=%d' % (
-            n, prog, rng.choice([1, 1, 2]), rng.randrange(1, 2 ** 31), rng.choice(FREQ), rng.choice(PICK), rng.choice(AFAIL),
-            rng.choice(SLEEP), rng.choice(TICK))
+
+    def add(prog, size, seed, freq, pick, afail, sleep, tick, extra=''):
+        nonlocal n
+        lines.append('rec r%d prog=%s size=%d seed=%d freq=%d pick=%d afail=%d sleep=%d tick=%d%s' % (
+            n, prog, size, seed, freq, pick, afail, sleep, tick, extra))
         n += 1
-        lines.append(line)
+    for _ in range(40 if tier == 'quick' else 400):
+        add(rng.choice(PROGS2), rng.choice([1, 1, 2]), rng.randrange(1, 2 ** 31), rng.choice(FREQ), rng.choice(PICK), rng.choice(AFAIL),
+            rng.choice(SLEEP), rng.choice(TICK))
+    for i in range(2 if tier == 'quick' else 10):
+        for (freq, sleep, pick) in ((1, 100, 10), (16, 1, 10), (1, 1, 1), (3, 1, 1)):
+            add(PROGS2[(i + freq + sleep) % len(PROGS2)], 1, rng.randrange(1, 2 ** 31), freq, pick, rng.choice([2, 13]), sleep, 10)
+    for i in range(1 if tier == 'quick' else 6):
+        for freq in (2, 4, 16):
+            seed = rng.randrange(1, 2 ** 31)
+            prog = PROGS2[(i + freq) % len(PROGS2)]
+            for k in range(freq + 1):
+                add(prog, 1, seed, freq, 10, 13, 100, 10, ' ckextra=%d' % k)
     return lines
 
 
@@ -334,7 +352,7 @@ def model_differential(res, binary, tier):
     drv = os.path.join(C.LEAN, '.lake/build/bin/ymdriver_fibersched')
     r = subprocess.run([binary, 'pure', '--seed', str(C.seed())], capture_output=True, text=True, timeout=600)
     impl = [l for l in r.stdout.split('\n') if l]
-    stats = {'GE': 0, 'POLL': 0, 'NI': 0, 'FW': 0, 'FWD': 0, 'F3': 0, 'SCHED': 0, 'SCHED_requests': 0, 'SCHED_crashes': 0}
+    stats = {'GE': 0, 'POLL': 0, 'NI': 0, 'RN': 0, 'SS': 0, 'FW': 0, 'FWD': 0, 'F3': 0, 'SCHED': 0, 'SCHED_requests': 0, 'SCHED_crashes': 0}
     problems = []
     f3 = {'experiments': 0, 'with_draws_before_SetSeed': 0, 'failures': 0, 'example': None}
     if not impl or impl[-1] != 'done':
@@ -551,6 +569,78 @@ def run(res, tier):
     neg_diff = len([k for k in neg if len(neg[k]['digests']) == 1 and
                     digest_tuple(neg[k]['digests'][0]) != digest_tuple(rec[k[:-2]]['digests'][0])])
 
+    # checkpoint states reached (state == frequency is the interesting one)
+    ck_states = {}
+    for l in rlines:
+        r = rec.get(l.split()[1])
+        if r and r['ckpt']:
+            f = int(l.split('freq=')[1].split()[0])
+            st = r['ckpt'][1]
+            kind = 'state==freq' if st == f else ('state>freq' if st > f else 'state<freq')
+            ck_states[kind] = ck_states.get(kind, 0) + 1
+    if not ck_states.get('state==freq'):
+        broken.append('the restore experiment never checkpointed with injector state == yield frequency')
+
+    # ---- the fault configuration applied ONCE per process; every later run is preceded by SetSeed + SetInjectorState only
+    #      (what the property says).  Each run must equal the same run made first thing in a new process.
+    once_cfg = dict(freq=4, pick=10, afail=13, sleep=100, tick=10)
+    once_lines = []
+    for i in range(10 if tier == 'quick' else 60):
+        prog = ['cas', 'strand', 'pool', 'all', 'coro'][i % 5]
+        once_lines.append('run o%d prog=%s size=%d seed=%d freq=%d pick=%d afail=%d sleep=%d tick=%d passes=2 reset=seed+state apply=%d' % (
+            i, prog, 1 + i % 2, rng.randrange(1, 2 ** 31), once_cfg['freq'], once_cfg['pick'], once_cfg['afail'], once_cfg['sleep'],
+            once_cfg['tick'], 1 if i == 0 else 0))
+    once, ocr = run_all(binary, once_lines, VARIANTS[0])
+    once_diff = 0
+    for i, l in enumerate(once_lines[1:], 1):
+        key = l.split()[1]
+        alone, acr = run_all(binary, [l.replace(' apply=0', ' apply=1')], VARIANTS[i % 2])
+        ta = [digest_tuple(d) for d in alone.get(key, {'digests': []})['digests']]
+        tb = [digest_tuple(d) for d in once.get(key, {'digests': []})['digests']]
+        runs += len(ta) + len(tb)
+        if len(ta) != 2 or len(tb) != 2 or len(set(ta + tb)) != 1:
+            once_diff += 1
+            if once_diff <= 2:
+                why, _, _ = first_difference(binary, [l.replace(' apply=0', ' apply=1')], key, VARIANTS[i % 2], 0,
+                                             once_lines[:i + 1], key, VARIANTS[0], 0 if (tb and ta and tb[0] != ta[0]) else 1)
+                res.violation('%s\n# comparison: this run as the first run of a new process (configuration applied, then SetSeed + '
+                              'SetInjectorState(0)) vs. as run number %d of a process in which the same configuration was applied once at '
+                              'the start and only SetSeed + SetInjectorState(0) precede each run\n# history in that process:\n# %s\n# %s' % (
+                                  l, i + 1, '\n# '.join(once_lines[:i]), why),
+                              'a run after re-seeding and resetting the injector differs from the same run in a new process '
+                              '(configuration applied once per process): ' + why, name='C17_%s_applyonce_%d.txt' % (tier, once_diff))
+    for c in ocr[:1]:
+        res.violation(str(c), 'the harness crashed in the apply-once experiment on configuration %s' % c[0], name='C17_%s_applyonce_crash.txt' % tier)
+
+    # ---- fibers with equal virtual wake-up times on a fragmented heap (fiber objects not in ascending address order):
+    #      pass 0 on the heap as it is, pass 1 after FragmentHeap (frag=2), and in another process fragmented before pass 0
+    frag_lines = []
+    for i in range(8 if tier == 'quick' else 60):
+        frag_lines.append('run f%d prog=%s size=%d seed=%d freq=%d pick=%d afail=13 sleep=100 tick=%d passes=2 reset=seed+state' % (
+            i, ['sleep', 'sleep', 'mixD', 'all'][i % 4], 1 + i % 3, rng.randrange(1, 2 ** 31), rng.choice([2, 5, 16]), rng.choice([2, 10]),
+            rng.choice([1, 10])))
+    fa, fcr1 = run_all(binary, [l + ' frag=2' for l in frag_lines], VARIANTS[0])
+    fb, fcr2 = run_all(binary, [l + ' frag=1' for l in frag_lines], VARIANTS[2])
+    frag_diff = 0
+    for l in frag_lines:
+        key = l.split()[1]
+        ts = [(digest_tuple(d), 'same process: pass %s (pass 1 after FragmentHeap)' % d['pass']) for d in fa.get(key, {'digests': []})['digests']] + \
+             [(digest_tuple(d), 'other process, heap fragmented before pass 0: pass %s' % d['pass']) for d in fb.get(key, {'digests': []})['digests']]
+        runs += len(ts)
+        if len(ts) != 4 or len({t for t, _ in ts}) != 1:
+            frag_diff += 1
+            if frag_diff <= 2:
+                other = next((w for t, w in ts if t != ts[0][0]), 'missing run')
+                same_proc = other.startswith('same')
+                why, _, _ = first_difference(binary, [l + ' frag=2'], key, VARIANTS[0], 0,
+                                             [l + (' frag=2' if same_proc else ' frag=1')], key, VARIANTS[0] if same_proc else VARIANTS[2],
+                                             1 if same_proc else 0)
+                res.violation('%s frag=2\n%s frag=1\n# comparison: %s vs %s\n# %s' % (l, l, ts[0][1], other, why),
+                              'two runs of the same (program, seed, configuration) differ when the heap is fragmented (fiber objects no '
+                              'longer allocated in ascending order): ' + why, name='C17_%s_fragmented_%d.txt' % (tier, frag_diff))
+    for c in (fcr1 + fcr2)[:1]:
+        res.violation(str(c), 'the harness crashed in the fragmented-heap experiment on configuration %s' % c[0], name='C17_%s_frag_crash.txt' % tier)
+
     # ---- the same comparison WITHOUT the address quarantine: what the allocator contributes (see notes/C17.md, F1).
     #      A difference whose first symptom is the outcome of a CAS after identical operation histories can only come
     #      from the compared word, i.e. from an address handed out again (ABA): known finding.  Anything else: violation.
@@ -668,7 +758,9 @@ def run(res, tier):
                              reset_between_inprocess_runs=reset_needed, model_differential=mstats,
                              without_address_quarantine=dict(configurations=len(raw_lines), runs=raw_runs, differing=len(raw_diff),
                                                              examined=min(4, len(raw_diff)), reproduce_with_quarantine=aba, first_difference_is_a_cas_outcome=cas_first),
-                             restore_after_draws_before_SetSeed=f3,
+                             restore_after_draws_before_SetSeed=f3, checkpoint_injector_states=ck_states,
+                             apply_config_once=dict(runs=len(once_lines), differing=once_diff),
+                             fragmented_heap=dict(configurations=len(frag_lines), differing=frag_diff),
                              lint_selftest_kinds=kinds),
         'compared': DIGEST_FIELDS,
         'broken_obligations': broken,
